@@ -3,6 +3,8 @@
 usage: tools/mutate.py <name> ... (names from MUTANTS) | all"""
 import subprocess, sys, os, json
 M = json.load(open('/verif/tools/mutants.json'))
+RES_PATH = '/verif/tools/mutants_result.json'
+RES = json.load(open(RES_PATH)) if os.path.exists(RES_PATH) else {}
 def run(name):
     m = M[name]
     path = '/repo/' + m['file']
@@ -17,10 +19,16 @@ def run(name):
         for chk in m['checks']:
             r = subprocess.run(['/verif/bin/check', chk, '--tier', 'quick'], capture_output=True, text=True, cwd='/verif')
             lines = [l for l in r.stdout.splitlines() if l.startswith('violation class')][:3]
+            RES.setdefault(name, {})[chk] = {'verdict': 'DETECTED' if r.returncode == 1 else 'MISSED' if r.returncode == 0 else 'BROKEN',
+                                             'classes': [l.split('"')[1] for l in lines if '"' in l][:2]}
             print(f"{name:28s} {chk}: exit {r.returncode} {'DETECTED' if r.returncode == 1 else 'MISSED' if r.returncode == 0 else 'BROKEN'} {lines if r.returncode==1 else r.stderr[-300:] if r.returncode==2 else ''}")
     finally:
         subprocess.run(['git', '-C', '/repo', 'checkout', '--', '.'])
         subprocess.run('rm -rf /verif/replay', shell=True)
 names = sys.argv[1:]
 if names == ['all']: names = list(M)
-for n in names: run(n)
+if subprocess.run(['git', '-C', '/repo', 'status', '--porcelain'], capture_output=True, text=True).stdout.strip():
+    print('/repo is not clean'); sys.exit(2)
+for n in names:
+    run(n)
+    json.dump(RES, open(RES_PATH, 'w'), indent=1, sort_keys=True)
